@@ -1,4 +1,5 @@
 import RustCcModel.Proofs.CtlSimp
+import RustCcModel.Proofs.ExecsCount
 import RustCcModel.Proofs.BytesInv
 /-! # C11 — introspection counters match reality
 
@@ -95,5 +96,11 @@ theorem buffer_exact (c : Cfg) (nH nW nK : Nat) (w : World) (h : Reachable c nH 
   refine ⟨?_, hi.oi.tc0 x hx⟩
   apply OI.boxLive_of_mark hi.oi (x := x)
   rw [(hi.oi.mPc x).2 hx]; simp
+
+/-- **`executions_count()` increases by exactly one for every collection actually started**: in every micro-step of the
+machine — running or unwinding, whatever the world — the counter grows by the number of `collect` events (one per
+`collect()` that got past its "already collecting" check) the step emits. -/
+theorem executions_count_exact (c : Cfg) (w : World) : (step c w).execs = w.execs + cEv (newEvents w (step c w)) :=
+  step_execs c w
 
 end RustCc.C11
